@@ -371,7 +371,15 @@ func c10Targeted(c *core.Ctx) {
 		targetedShortWrite(c, int(i))
 		c.Distinct(uint64(i) | 17<<50)
 	})
-	c.Section("targeted-ticker-follows-clock", 2, func(i int64, _ *gen.Rand) {
+	c.SectionSerial("targeted-restart-while-first-write-fails", 1, func(i int64, _ *gen.Rand) {
+		targetedRestartWhileFirstWriteFails(c, int(c.N(24, 1000)))
+		c.Distinct(uint64(i) | 23<<50)
+	})
+	c.Section("targeted-nested-collect-from-handler", 4, func(i int64, _ *gen.Rand) {
+		targetedNestedCollectFromHandler(c, int(i))
+		c.Distinct(uint64(i) | 24<<50)
+	})
+	c.Section("targeted-ticker-follows-clock", 3, func(i int64, _ *gen.Rand) {
 		targetedTickerFollowsClock(c, int(i))
 		c.Distinct(uint64(i) | 18<<50)
 	})
@@ -583,6 +591,10 @@ func targetedCloseFromClosedHandler(c *core.Ctx, variant int) {
 }
 
 func c15Targeted(c *core.Ctx) {
+	c.Section("targeted-close-while-start-writes", 4, func(i int64, _ *gen.Rand) {
+		targetedCloseWhileStartWrites(c, int(i))
+		c.Distinct(uint64(i) | 26<<50)
+	})
 	c.SectionSerial("targeted-closed-client-collected", 2, func(i int64, _ *gen.Rand) {
 		targetedClosedClientCollected(c, int(i))
 		c.Distinct(uint64(i) | 22<<50)
@@ -734,6 +746,16 @@ func targetedTickerFollowsClock(c *core.Ctx, variant int) {
 	}
 	if variant == 1 {
 		r.w.SetNow(-int64(40 * 365 * 24 * time.Hour)) // the clock is decades behind the wall clock ...
+	}
+	if variant == 2 {
+		// the clock once showed a much later time (a wrong wall clock that was then corrected): time "now" is what the
+		// clock says now
+		r.w.SetNow(int64(5 * time.Hour))
+		b0 := atomic.LoadInt32(&r.agent.Collects)
+		waitFor(func() bool { return atomic.LoadInt32(&r.agent.Collects) > b0+5 })
+		r.w.SetNow(int64(time.Second))
+		b1 := atomic.LoadInt32(&r.agent.Collects)
+		waitFor(func() bool { return atomic.LoadInt32(&r.agent.Collects) > b1+5 })
 	}
 	t := r.newTx("Start", seqTID(0), 24)
 	_ = r.start(t)
@@ -1052,4 +1074,314 @@ func targetedClosedClientCollected(c *core.Ctx, variant int) {
 		}
 	}
 	c.Count("targeted.closed_clients_collected", int64(len(conns)))
+}
+
+// targetedRestartWhileFirstWriteFails: Start(id) is parked right before its Write; the response arrives and is handled;
+// the application starts id again (a fresh transaction object: the pools were just flushed by the garbage collector); then
+// the first Start's write fails. The second transaction is nobody else's to release.
+func targetedRestartWhileFirstWriteFails(c *core.Ctx, rounds int) {
+	for k := 0; k < rounds; k++ {
+		c.Eval(1)
+		runtime.GC()
+		runtime.GC() // sync.Pool: two collections empty primary and victim caches, the next transactions are brand new objects
+		o := rigOpts{useRoles: true, rto: time.Second, noRetransmit: k%2 == 1}
+		r, err := newRig(o)
+		if err != nil {
+			c.Violate("newclient", "newclient", err.Error())
+
+			return
+		}
+		r.w.SetRole("driver")
+		id := seqTID(0)
+		id[4] = byte(k)
+		first := r.newTx("Start", id, 24)
+		p := r.w.AddPause("conn.Write.before", "starter", 1)
+		firstDone := make(chan struct{})
+		go func() { r.w.SetRole("starter"); _ = r.start(first); close(firstDone) }()
+		select {
+		case <-p.Parked:
+		case <-time.After(10 * time.Second):
+			c.Inconclusive(1)
+			p.Release()
+			<-firstDone
+			_ = r.close()
+
+			continue
+		}
+		r.deliver(id, response(id, fmt.Sprintf("first-%d", k)), true) // completes the first transaction: its handler runs
+		second := r.newTx("Start", id, 28)
+		if err := r.start(second); err != nil {
+			c.Violate("start-failed", "start-failed:restart", map[string]interface{}{"problem": "restarting an id whose transaction has completed returned " + err.Error(), "ledger": r.describe()})
+			p.Release()
+			<-firstDone
+			_ = r.close()
+
+			return
+		}
+		r.conn.FailNext(1) // the parked write of the FIRST Start is the next write
+		p.Release()
+		<-firstDone
+		r.deliver(id, response(id, fmt.Sprintf("second-%d", k)), true)
+		_ = r.close()
+		if inv := second.invocations(); len(inv) != 1 {
+			c.Violate("handler-never-invoked", "never-invoked:restart-while-first-write-fails", map[string]interface{}{"options": o.String(), "round": k,
+				"problem": fmt.Sprintf("the second transaction for the id: handler invocations %v after its response was delivered and the client closed; the first Start returned %v", classesOf(inv), first.RetErr), "ledger": r.describe()})
+
+			return
+		}
+		if inv := first.invocations(); len(inv) != 1 || (first.RetErr != nil && len(inv) > 0) {
+			c.Violate("start-error-but-handler-invoked", "restart-while-first-write-fails:first", map[string]interface{}{"options": o.String(), "round": k,
+				"problem": fmt.Sprintf("the first Start returned %v, its handler invocations: %v", first.RetErr, classesOf(inv)), "ledger": r.describe()})
+
+			return
+		}
+	}
+	c.Count("targeted.restart_while_first_write_fails", int64(rounds))
+}
+
+// targetedNestedCollectFromHandler: three transactions time out in one tick; the first handler starts two more, moves the
+// clock on and collects again (on the agent it shares with the client) before the outer tick has delivered the rest.
+func targetedNestedCollectFromHandler(c *core.Ctx, variant int) {
+	c.Eval(1)
+	o := rigOpts{noRetransmit: variant&1 == 0, rto: time.Second}
+	r, err := newRig(o)
+	if err != nil {
+		c.Violate("newclient", "newclient", err.Error())
+
+		return
+	}
+	var nested int32
+	var all []*tx
+	var mu sync.Mutex
+	var mk func(i int8) *tx
+	mk = func(i int8) *tx {
+		t := r.newTx("Start", seqTID(i), 24)
+		t.Raw = append([]byte(nil), t.msg.Raw...)
+		t.CallStamp = r.w.Tick()
+		h := r.handlerFor(t)
+		t.RetErr = r.client.Start(t.msg, func(e stun.Event) {
+			h(e)
+			if atomic.CompareAndSwapInt32(&nested, 0, 1) { // (not sync.Once: the nested collection re-enters this handler)
+				d, e2 := mk(3), mk(4)
+				mu.Lock()
+				all = append(all, d, e2)
+				mu.Unlock()
+				r.w.SetNow(r.w.VNow() + int64(time.Hour))
+				_ = r.agent.Collect(r.w.Now()) // a collection like the collector's, issued from inside the handler
+			}
+		})
+		t.RetStamp = r.w.Tick()
+		atomic.StoreInt32(&t.Returned, 1)
+
+		return t
+	}
+	for i := int8(0); i < 3; i++ {
+		all = append(all, mk(i))
+	}
+	now := int64(0)
+	for k := 0; k <= r.maxAttempts()+1; k++ {
+		now = r.w.VNow() + int64(100*time.Second)
+		r.tickAt(now)
+	}
+	_ = r.close()
+	mu.Lock()
+	defer mu.Unlock()
+	for _, t := range all {
+		if inv := t.invocations(); t.RetErr == nil && len(inv) != 1 {
+			c.Violate("handler-never-invoked", "exactly-once:nested-collect-from-handler", map[string]interface{}{"options": o.String(),
+				"problem": fmt.Sprintf("transaction #%d: handler invocations %v after the client was closed, exactly one expected", t.Seq, classesOf(inv)), "ledger": r.describe()})
+
+			return
+		}
+	}
+	c.Count("targeted.nested_collect_from_handler", 1)
+}
+
+// targetedOverlappingRetransmissions: two requests of one client are retransmitted by two overlapping collections (Agent.
+// Collect is documented as safe to call concurrently): the first one's Write is parked while the second one's
+// retransmission runs in full. Each transmission carries its own request.
+func targetedOverlappingRetransmissions(c *core.Ctx, variant int) {
+	c.Eval(1)
+	o := rigOpts{rto: time.Second, useRoles: true}
+	r, err := newRig(o)
+	if err != nil {
+		c.Violate("newclient", "newclient", err.Error())
+
+		return
+	}
+	r.w.SetRole("driver")
+	size := 24 + 8*variant
+	a := r.newTx("Start", seqTID(0), size)
+	_ = r.start(a)
+	r.w.SetNow(int64(500 * time.Millisecond))
+	b := r.newTx("Start", seqTID(1), size) // same size, other content
+	_ = r.start(b)
+	p := r.w.AddPause("conn.Write.before", "collector-1", 1)
+	r.w.SetNow(int64(1200 * time.Millisecond)) // only the first request is due
+	done1 := make(chan struct{})
+	go func() { r.w.SetRole("collector-1"); _ = r.agent.Collect(r.w.Now()); close(done1) }()
+	select {
+	case <-p.Parked:
+	case <-time.After(10 * time.Second):
+		c.Inconclusive(1)
+		p.Release()
+		<-done1
+		_ = r.close()
+
+		return
+	}
+	r.w.SetNow(int64(1700 * time.Millisecond)) // now the second one is due too
+	_ = r.agent.Collect(r.w.Now())             // its retransmission runs to completion on this goroutine
+	p.Release()
+	<-done1
+	for _, t := range []*tx{a, b} {
+		ws := r.writesFor(t, r.conn.Writes())
+		for k, wr := range ws {
+			if !bytes.Equal(wr.Bytes, t.Raw) {
+				c.Violate("write-differs", "write-differs:overlapping-retransmissions", map[string]interface{}{
+					"problem": fmt.Sprintf("transmission %d of request #%d differs from the request as it was when Start was called (first difference at byte %d)", k, t.Seq, firstDiff(wr.Bytes, t.Raw)), "ledger": r.describe()})
+				_ = r.close()
+
+				return
+			}
+		}
+		if len(ws) != 2 {
+			c.Violate("write-count", "write-count:overlapping-retransmissions", map[string]interface{}{
+				"problem": fmt.Sprintf("request #%d was transmitted %d times, the schedule says 2", t.Seq, len(ws)), "ledger": r.describe()})
+			_ = r.close()
+
+			return
+		}
+	}
+	_ = r.close()
+	c.Count("targeted.overlapping_retransmissions", 1)
+}
+
+// targetedStopsAndBudget: the application stops a transaction on the shared agent a few times along its schedule. However
+// the client treats those events, the request is on the wire at most n+1 times.
+func targetedStopsAndBudget(c *core.Ctx, variant int) {
+	c.Eval(1)
+	o := rigOpts{rto: time.Second}
+	r, err := newRig(o)
+	if err != nil {
+		c.Violate("newclient", "newclient", err.Error())
+
+		return
+	}
+	t := r.newTx("Start", seqTID(0), 24)
+	_ = r.start(t)
+	now := int64(0)
+	stops := 0
+	for k := 0; k < 40 && len(t.invocations()) == 0; k++ {
+		if k%3 == variant%3 && stops < 2+variant {
+			_ = r.agent.Inner.Stop(seqTID(0))
+			stops++
+
+			continue
+		}
+		now += int64(100 * time.Second)
+		r.tickAt(now)
+	}
+	_ = r.close()
+	ws := r.writesFor(t, r.conn.Writes())
+	if limit := r.maxAttempts() + 1; len(ws) > limit {
+		c.Violate("too-many-writes", "too-many-writes:external-stops", map[string]interface{}{"options": o.String(),
+			"problem": fmt.Sprintf("the request was written %d times; with %d retransmissions allowed the limit is %d (the application stopped the transaction on the shared agent %d times along the way)", len(ws), r.maxAttempts(), limit, stops), "ledger": r.describe()})
+
+		return
+	}
+	if inv := t.invocations(); len(inv) != 1 {
+		c.Violate("handler-never-invoked", "exactly-once:stops-and-budget", map[string]interface{}{"invocations": classesOf(inv), "ledger": r.describe()})
+	}
+	c.Count("targeted.stops_and_budget", 1)
+}
+
+// targetedResponseDuringClose: Close has marked the client closed and is waiting inside the collector's Close; the
+// transaction is still in flight and its response arrives. The handler gets that response (the decode of that datagram).
+func targetedResponseDuringClose(c *core.Ctx, variant int) {
+	c.Eval(1)
+	o := rigOpts{useRoles: true, fallback: variant&1 == 1, noRetransmit: variant&2 != 0}
+	r, err := newRig(o)
+	if err != nil {
+		c.Violate("newclient", "newclient", err.Error())
+
+		return
+	}
+	r.w.SetRole("driver")
+	t := r.newTx("Start", seqTID(0), 24)
+	_ = r.start(t)
+	p := r.w.AddPause("collector.Close.before", "closer", 1)
+	done := make(chan struct{})
+	go func() { r.w.SetRole("closer"); _ = r.close(); close(done) }()
+	select {
+	case <-p.Parked:
+	case <-time.After(10 * time.Second):
+		c.Inconclusive(1)
+		p.Release()
+		<-done
+
+		return
+	}
+	resp := response(seqTID(0), fmt.Sprintf("during-close-%d", variant))
+	taken := r.deliver(seqTID(0), resp, true)
+	inv := t.invocations()
+	p.Release()
+	<-done
+	if taken && (len(inv) != 1 || inv[0].Class != "response" || !bytes.Equal(inv[0].MsgRaw, resp)) {
+		c.Violate("not-delivered", "not-delivered:response-during-close", map[string]interface{}{"options": o.String(),
+			"problem": fmt.Sprintf("the response arrived while Close was still waiting for the collector (agent and connection open, transaction in flight); handler invocations: %v", classesOf(inv)), "ledger": r.describe()})
+
+		return
+	}
+	c.Count("targeted.response_during_close", 1)
+}
+
+// targetedCloseWhileStartWrites: a Start is inside the connection's Write (which takes its time); Close is called. Close
+// does not depend on that Write: it returns while the Write is still in progress.
+func targetedCloseWhileStartWrites(c *core.Ctx, variant int) {
+	c.Eval(1)
+	o := rigOpts{useRoles: true, noConnClose: variant&1 == 1, noRetransmit: variant&2 != 0}
+	r, err := newRig(o)
+	if err != nil {
+		c.Violate("newclient", "newclient", err.Error())
+
+		return
+	}
+	r.w.SetRole("driver")
+	t := r.newTx("Start", seqTID(0), 24)
+	p := r.w.AddPause("conn.Write.before", "starter", 1)
+	started := make(chan struct{})
+	go func() { r.w.SetRole("starter"); _ = r.start(t); close(started) }()
+	select {
+	case <-p.Parked:
+	case <-time.After(10 * time.Second):
+		c.Inconclusive(1)
+		p.Release()
+		<-started
+		_ = r.close()
+
+		return
+	}
+	done := make(chan struct{})
+	go func() { _ = r.close(); close(done) }()
+	returnedWhileWriting := false
+	select {
+	case <-done:
+		returnedWhileWriting = true
+	case <-time.After(10 * time.Second):
+	}
+	p.Release()
+	<-started
+	if !returnedWhileWriting {
+		select {
+		case <-done:
+			c.Violate("stuck", "close-waits-for-concurrent-write", map[string]interface{}{"options": o.String(),
+				"problem": "Close did not return for 10 s while a concurrent Start was inside the connection's Write, and returned as soon as that Write was let go: Close depends on a Write that may never finish"})
+		case <-time.After(15 * time.Second):
+			c.Violate("stuck", "stuck:Close", map[string]interface{}{"options": o.String(), "goroutines_inside_the_library": agentFrames(allStacks())})
+		}
+
+		return
+	}
+	c.Count("targeted.close_while_start_writes", 1)
 }
